@@ -60,7 +60,9 @@ let tsh_case id argv fs infile rb rw =
 (* ---- programs: AST dump in the harness' S-expression syntax ---- *)
 open Ast
 let str_of_bytes (b : coq_N list) : string =
-  Stdlib.String.init (Stdlib.List.length b) (fun i -> Char.chr (int_of_n (Stdlib.List.nth b i)))
+  let buf = Buffer.create 256 in
+  Stdlib.List.iter (fun c -> Buffer.add_char buf (Char.chr (int_of_n c))) b;
+  Buffer.contents buf
 let sp = Stdlib.String.concat " "
 let d_dt = function DUnknown -> "u" | DMultiple -> "m" | DBool -> "b" | DInt -> "i" | DString -> "s"
 let d_vt t = (if t.is_slice then "[]" else "") ^ d_dt t.dt
@@ -144,6 +146,41 @@ let emit_case id main files stddir =
   | FrontModel.PErr -> Printf.printf "emit %s bash=err batch=err\n" id
   | FrontModel.PFuel -> Printf.printf "emit %s bash=fuel batch=fuel\n" id
 
+(* ---- reference semantics on the model's AST ---- *)
+let rec nat_of_int n = if n <= 0 then Datatypes.O else Datatypes.S (nat_of_int (n - 1))
+let z_to_string z = str_of_bytes (Bytestr.dec_Z z)
+let run_fuel = nat_of_int 20000
+let run_case id main files stddir =
+  match FrontModel.parse_main (env_of files stddir) (bytes_of_hex main) with
+  | FrontModel.POk (body, _, _) ->
+      (match Src.run run_fuel [] body with
+       | Src.Ran (out, status, _) -> Printf.printf "run %s transpile=ok out=%s status=%s stderr=\n" id (hex_of_bytes out) (z_to_string status)
+       | Src.RunUndef -> Printf.printf "run %s undefined\n" id
+       | Src.RunNoFuel -> Printf.printf "run %s nofuel\n" id)
+  | FrontModel.PErr -> Printf.printf "run %s transpile=err\n" id
+  | FrontModel.PFuel -> Printf.printf "run %s transpile=fuel\n" id
+
+(* ---- histories of Transpile calls on one transpiler object ---- *)
+let hist_case id ops stddir progs =
+  let plist = Stdlib.List.map (fun p ->
+      match Stdlib.String.index_opt p '|' with
+      | Some i -> (Stdlib.String.sub p 0 i, Stdlib.String.sub p (i + 1) (Stdlib.String.length p - i - 1))
+      | None -> (p, "")) (Stdlib.String.split_on_char ';' progs) in
+  let calls = Stdlib.List.map (fun op ->
+      match Stdlib.String.split_on_char ':' op with
+      | [pi; t] ->
+          let (main, files) = Stdlib.List.nth plist (int_of_string pi) in
+          { Pipeline.c_env = env_of files stddir; Pipeline.c_path = bytes_of_hex main;
+            Pipeline.c_target = (if t = "b" then Pipeline.TBash else Pipeline.TBatch) }
+      | _ -> failwith "bad op") (split_nonempty ',' ops) in
+  let res = Pipeline.run_history None calls in
+  let show = function
+    | Pipeline.Script s -> Digest.to_hex (Digest.string (str_of_bytes s))
+    | Pipeline.Failed -> "err"
+    | Pipeline.Crashed -> "panic"
+    | Pipeline.OutOfFuel -> "fuel" in
+  Printf.printf "hist %s calls=%s\n" id (Stdlib.String.concat "," (Stdlib.List.map show res))
+
 let () =
   try
     while true do
@@ -154,6 +191,8 @@ let () =
       | ["tsh"; id; argv; fs; infile; rb; rw] -> tsh_case id argv fs infile rb rw
       | ["parse"; id; main; files; stddir] -> parse_case id main files stddir
       | ["emit"; id; main; files; stddir] -> emit_case id main files stddir
+      | ["run"; id; main; files; stddir] -> run_case id main files stddir
+      | ["hist"; id; ops; stddir; progs] -> hist_case id ops stddir progs
       | [] | [""] -> ()
       | k :: _ -> Printf.printf "unknown-case-kind %s\n" k
     done
